@@ -125,6 +125,7 @@ class Interp:
         # "unit is zero"); the caller enumerates the decisions (explore()). Without it such a test is refused.
         self.oracle = None
         self.depth = 0
+        self.assumed_zero = set()      # named bits a path has assumed to be 0 (a zero test decided "is zero")
 
     def nonzero(self, bits, node):
         """truth value of `bits != 0`"""
@@ -136,7 +137,11 @@ class Interp:
         if self.oracle is None or any(b == '?' for b in bits):
             raise Refuse('zero test of non-constant data: ' + ir.pp(node))
         key = frozenset(b for b in bits if b != 0)
-        return self.oracle(key)
+        nz = self.oracle(key)
+        if not nz:
+            for b in key:
+                self.assumed_zero.add(b)
+        return nz
 
     def explore(self, fn, make_state, args=(), limit=4096):
         """run fn once per combination of oracle decisions (depth-first over the decisions actually consulted).
@@ -161,12 +166,13 @@ class Interp:
                 decisions[key] = d
                 return d
             self.oracle = oracle
+            self.assumed_zero = set()
             try:
                 this = make_state()
                 res = self.run(fn, this, list(args))
             finally:
                 self.oracle = None
-            out.append((decisions, res, this))
+            out.append((decisions, res, this, set(self.assumed_zero)))
             if len(out) > limit:
                 raise Refuse('more than %d decision paths' % limit)
         return out
@@ -209,8 +215,47 @@ class Interp:
                 raise Refuse('index %s out of range in %s' % (i, ir.pp(e)))
             return ('elem', arr, i)
         if k == 'un' and e['op'] == '*':
-            return self.lv(e['e'], fn, this, env)
+            try:
+                arr, i = self.ptr(e['e'], fn, this, env)
+            except Refuse:
+                return self.lv(e['e'], fn, this, env)
+            if not (0 <= i < len(arr)):
+                raise Refuse('index %s out of range in %s' % (i, ir.pp(e)))
+            return ('elem', arr, i)
         raise Refuse('lvalue ' + ir.pp(e))
+
+    def ptr(self, e, fn, this, env):
+        """value of a pointer expression as (array, index)"""
+        e = ir.strip(e)
+        k = e['k']
+        if k == 'var':
+            b = env.get(e['id'])
+            if b is not None and b[0] == 'ptr':
+                return b[1]
+        if k in ('var', 'mem'):
+            arr = self.load(self.lv(e, fn, this, env), env)
+            if isinstance(arr, list):
+                return (arr, 0)          # array-to-pointer decay
+        if k == 'cast':
+            return self.ptr(e['e'], fn, this, env)
+        if k == 'un' and e['op'] == '&':
+            l = self.lv(e['e'], fn, this, env)
+            if l[0] == 'elem':
+                return (l[1], l[2])
+        if k == 'un' and e['op'] in ('++', '--'):
+            t = ir.strip(e['e'])
+            b = env.get(t.get('id')) if t['k'] == 'var' else None
+            if b is not None and b[0] == 'ptr':
+                old = b[1]
+                new = (old[0], old[1] + (1 if e['op'] == '++' else -1))
+                b[1] = new
+                return old if e.get('post') else new
+        if k == 'bin' and e['op'] in ('+', '-'):
+            base = self.ptr(e['l'], fn, this, env)
+            n = to_int(self.ev(e['r'], fn, this, env))
+            if n is not None:
+                return (base[0], base[1] + (n if e['op'] == '+' else -n))
+        raise Refuse('pointer expression ' + ir.pp(e))
 
     def obj(self, e, fn, this, env):
         e = ir.strip(e)
@@ -223,6 +268,8 @@ class Interp:
 
     def load(self, lv, env):
         if lv[0] == 'var':
+            if env[lv[1]][0] == 'ptr':
+                raise Refuse('pointer used as a value')
             return env[lv[1]][1]
         if lv[0] == 'field':
             return lv[1][lv[2]]
@@ -309,7 +356,7 @@ class Interp:
             if ia is None and ib == 0 and op in ('!=', '=='):
                 # "is this single extracted bit set?": a vector that is zero except for one named bit
                 named = [x for x in a if x not in (0,)]
-                if len(named) == 1 and named[0] != 1 and named[0] != '?':
+                if len(named) == 1 and named[0] != 1 and named[0] != '?' and self.oracle is None:
                     bit = named[0]
                     return (bit if op == '!=' else b_not((bit,))[0],) + (0,) * (W - 1)
                 if self.oracle is not None:
@@ -427,6 +474,9 @@ class Interp:
                     raise Refuse('unknown declaration')
                 if v.get('ref'):
                     env[v['id']] = ['ref', self.lv(v['init'], fn, this, env), None]
+                elif (v.get('ty') or '').rstrip().endswith('*'):
+                    # a pointer walking over a byte array: (array, index); dereferences are bounds-checked against the array
+                    env[v['id']] = ['ptr', self.ptr(v['init'], fn, this, env), None]
                 else:
                     w = width_of(v.get('ty')) or W
                     val = self.ev(v['init'], fn, this, env) if v.get('init') is not None else UNKNOWN
@@ -510,3 +560,21 @@ class _Continue(Exception):
 class _Ret(Exception):
     def __init__(self, v):
         self.v = v
+
+
+def assume_zero(bit, zero):
+    """the bit under the assumption that every named bit in `zero` is 0"""
+    if bit in zero:
+        return 0
+    if isinstance(bit, tuple) and bit and bit[0] == 'and':
+        parts = [assume_zero(x, zero) for x in bit[1:]]
+        if any(x == 0 for x in parts):
+            return 0
+        parts = [x for x in parts if x != 1]
+        if not parts:
+            return 1
+        return parts[0] if len(parts) == 1 else ('and',) + tuple(sorted(parts, key=repr))
+    if isinstance(bit, tuple) and bit and bit[0] == 'not':
+        x = assume_zero(bit[1], zero)
+        return 1 if x == 0 else 0 if x == 1 else ('not', x)
+    return bit
